@@ -263,6 +263,113 @@ class _Canon(ast.NodeTransformer):
         return node
 
 
+_NEG = {ast.In: ast.NotIn, ast.NotIn: ast.In, ast.Is: ast.IsNot, ast.IsNot: ast.Is, ast.Eq: ast.NotEq, ast.NotEq: ast.Eq}
+
+
+def negate(e: ast.expr) -> ast.expr:
+    """``not e`` in its plainest spelling (truth value only: used where the result is tested, never stored)."""
+    if isinstance(e, ast.UnaryOp) and isinstance(e.op, ast.Not):
+        return e.operand
+    if isinstance(e, ast.Compare) and len(e.ops) == 1 and type(e.ops[0]) in _NEG:
+        return ast.copy_location(ast.Compare(left=e.left, ops=[_NEG[type(e.ops[0])]()], comparators=e.comparators), e)
+    if isinstance(e, ast.BoolOp):
+        return ast.copy_location(ast.BoolOp(op=ast.And() if isinstance(e.op, ast.Or) else ast.Or(), values=[negate(v) for v in e.values]), e)
+    return ast.copy_location(ast.UnaryOp(op=ast.Not(), operand=e), e)
+
+
+def _acc_shape(body: list, acc: str):
+    """Loop body that only filters and appends to ``acc``: -> (conditions, appended expression) else None.
+
+        [if C: continue]* ; acc.append(E)            |            if C: <the same shape>
+    """
+    conds = []
+    body = list(body)
+    while body:
+        st = body[0]
+        if isinstance(st, ast.If) and not st.orelse and len(st.body) == 1 and isinstance(st.body[0], ast.Continue) and len(body) > 1:
+            conds.append(negate(st.test))
+            body = body[1:]
+            continue
+        if isinstance(st, ast.If) and not st.orelse and len(body) == 1:
+            conds.append(st.test)
+            body = list(st.body)
+            continue
+        break
+    if len(body) != 1:
+        return None
+    st = body[0]
+    if not (isinstance(st, ast.Expr) and isinstance(st.value, ast.Call)):
+        return None
+    c = st.value
+    if not (isinstance(c.func, ast.Attribute) and c.func.attr == "append" and isinstance(c.func.value, ast.Name) and c.func.value.id == acc
+            and len(c.args) == 1 and not c.keywords and not isinstance(c.args[0], ast.Starred)):
+        return None
+    return conds, c.args[0]
+
+
+def _canon_acc_loops(fn: ast.AST) -> int:
+    """``acc = []`` directly followed by a ``for`` that only filters and appends to ``acc``  ->  ``acc = [E for x in IT if C..]``.
+
+    The two spellings build the same list (same order, same evaluations); rules then meet ONE form, the comprehension.
+    Not rewritten when the loop variables are read outside the loop (a comprehension does not leak them), when the body
+    holds anything else (temporaries, other effects, break / return / yield), or when ``acc`` occurs inside the loop
+    other than as the receiver of the one ``append``."""
+    loads: dict[str, int] = {}
+    for n in ast.walk(fn):
+        if isinstance(n, ast.Name) and isinstance(n.ctx, ast.Load):
+            loads[n.id] = loads.get(n.id, 0) + 1
+    done = 0
+    for holder in list(ast.walk(fn)):
+        for field in ("body", "orelse", "finalbody"):
+            b = getattr(holder, field, None)
+            if not (isinstance(b, list) and b and isinstance(b[0], ast.stmt)):
+                continue
+            i = 0
+            while i + 1 < len(b):
+                a, loop = b[i], b[i + 1]
+                i += 1
+                if isinstance(a, ast.AnnAssign) and a.simple:
+                    tgt, val = a.target, a.value
+                elif isinstance(a, ast.Assign) and len(a.targets) == 1:
+                    tgt, val = a.targets[0], a.value
+                else:
+                    continue
+                if not (isinstance(tgt, ast.Name) and isinstance(val, ast.List) and not val.elts):
+                    continue
+                if not (type(loop) is ast.For and not loop.orelse):
+                    continue
+                shape = _acc_shape(loop.body, tgt.id)
+                if shape is None:
+                    continue
+                conds, elt = shape
+                inner = [loop.iter, elt] + conds
+                bad = False
+                inside: dict[str, int] = {}
+                for e in inner:
+                    for n in ast.walk(e):
+                        if isinstance(n, (ast.Yield, ast.YieldFrom, ast.NamedExpr, ast.Lambda)):
+                            bad = True
+                        if isinstance(n, ast.Name):
+                            if n.id == tgt.id:
+                                bad = True
+                            if isinstance(n.ctx, ast.Load):
+                                inside[n.id] = inside.get(n.id, 0) + 1
+                tvars = {n.id for n in ast.walk(loop.target) if isinstance(n, ast.Name)}
+                if len(tvars) != sum(1 for n in ast.walk(loop.target) if isinstance(n, (ast.Name, ast.Attribute, ast.Subscript))):
+                    bad = True  # the loop stores into something that is not a plain local
+                if any(loads.get(v, 0) != inside.get(v, 0) for v in tvars):
+                    bad = True  # loop variable read outside the loop
+                if bad:
+                    continue
+                comp = ast.ListComp(elt=elt, generators=[ast.comprehension(target=loop.target, iter=loop.iter, ifs=conds, is_async=0)])
+                ast.copy_location(comp, loop)
+                a.value = comp
+                del b[i]
+                ast.fix_missing_locations(a)
+                done += 1
+    return done
+
+
 class Program:
     def __init__(self, root: str):
         self.root = os.path.abspath(root)
@@ -317,6 +424,9 @@ class Program:
             self.inline_stats = inline_package({mn: m.tree for mn, m in self.modules.items() if not mn.startswith(PKG + ".testing") and mn != PKG + ".testing"}, keep)
         for m in self.modules.values():
             m.tree = _Canon().visit(m.tree)
+            if os.environ.get("VERIF_SA_NO_ACCLOOP") != "1" and not (m.name == PKG + ".testing" or m.name.startswith(PKG + ".testing.")):
+                for fn in [n for n in ast.walk(m.tree) if isinstance(n, (ast.FunctionDef, ast.AsyncFunctionDef))]:
+                    self.inline_stats["acc_loops"] = self.inline_stats.get("acc_loops", 0) + _canon_acc_loops(fn)
         for m in self.modules.values():
             self._index_module(m)
         for c in self.classes.values():
